@@ -566,7 +566,7 @@ def c02(res, tier, seed):
     mt, cxs = mt_setup(res, ("std",) if tier == "quick" else ALL, tier, seed)
     for cx in cxs:
         mt.q_gate(cx)
-        mt.run_queries(cx, timeout_s=500 if tier == "quick" else 2400)
+        mt.run_queries(cx, timeout_s=900 if tier == "quick" else 2400)
     if tier == "quick":
         # long lines (20 symbolic bytes + a run of up to 3840 copies of one payload character): bug hunting only in this tier - the
         # UNSAT proofs take 8-14 min (thorough tier), a violation is found in seconds
@@ -600,7 +600,7 @@ def c08(res, tier, seed):
         mt.q_shapes(cx)
         mt.q_postconditions(cx)
         mt.q_no_panic(cx)
-        mt.run_queries(cx, timeout_s=500 if tier == "quick" else 2400)
+        mt.run_queries(cx, timeout_s=900 if tier == "quick" else 2400)
     if tier == "quick":
         mt_gap_no_panic(res, ("std",), seed, N=20, timeout_s=100, width=12, queries=("q_shapes",), hunt=True)
     if tier == "thorough":
@@ -623,7 +623,7 @@ def c07(res, tier, seed):
     mt, cxs = mt_setup(res, ("std",) if tier == "quick" else ALL, tier, seed)
     for cx in cxs:
         mt.q_fields(cx)
-        mt.run_queries(cx, timeout_s=500 if tier == "quick" else 2400)
+        mt.run_queries(cx, timeout_s=900 if tier == "quick" else 2400)
     msq, ql, rels = m_setup(res, ("std", "none") if tier == "quick" else ALL, seed)
     for c, rel in rels.items():
         msq.q_decode_flag(res, rel, ql)
